@@ -8,12 +8,12 @@ ROOT = os.path.dirname(os.path.dirname(os.path.abspath(__file__)))
 CHECKS = {
     "C09": dict(
         level="model_checking", design="DESIGN.md 4/C09",
-        technique="TLA+ refinement PipeRing=>Pipe checked by TLC; TLC transition-cover behaviours replayed lock-step into the real pipe via gate hooks; recorded hook traces validated by TLC against the contract (PipeTrace)",
+        technique="TLA+ refinement PipeRing=>Pipe checked by TLC; TLC transition-cover behaviours replayed lock-step into the real pipe via gate hooks; recorded hook traces validated by TLC against the contract (PipeTrace); thorough: the ring arithmetic for unbounded totals as an inductive invariant discharged by Apalache (RingInd.tla)",
         text="TLC proves on the as-implemented ring model (all interleavings, small constants) that the contract (FIFO, parks only when blocked, wake obligations, exact close/return rules) holds; the binding to the code is two-way: every transition of the model's state graph is driven through the real pipe in lock-step and every event recorded from lock-step and free-running executions is checked by TLC against the contract, invariants evaluated after each event.",
         note="Go runtime sync.Cond semantics; 5 s watchdog used only together with a contract state that owes a wake-up; lock-step uses alignment-unit sizes, byte-granular sizes only in free runs."),
     "C18": dict(
         level="model_checking", design="DESIGN.md 4/C18",
-        technique="TLA+ model of the ring log (Backlog.tla) with the contract as invariants checked by TLC; TLC-simulated behaviours replayed lock-step into the real backlog via gate hooks; recorded hook traces validated by TLC (BacklogTrace)",
+        technique="TLA+ model of the ring log (Backlog.tla) with the contract as invariants checked by TLC; TLC-simulated behaviours replayed lock-step into the real backlog via gate hooks; recorded hook traces validated by TLC (BacklogTrace); thorough: the ring for unbounded offsets as an inductive invariant discharged by Apalache (LogRingInd.tla)",
         text="TLC checks on the as-implemented ring model, for all interleavings of a writer and two readers with several wrap-arounds, that reads return exactly the ids written at the offset, invalid-offset is reported exactly when the offset is overwritten or ahead, readers wait only at the head of an open log and every write/close owes each waiting reader a wake-up; model behaviours are driven through the real backlog in lock-step and every recorded event of lock-step and free runs is checked by TLC against the contract.",
         note="Go runtime sync.Cond semantics; behaviour after Close beyond waking waiters with an error is not constrained; lock-step uses alignment-unit sizes, byte-granular sizes only in free runs."),
     "C15": dict(
@@ -78,7 +78,7 @@ CHECKS = {
         note="Kernel segment coalescing can hide an intended split (coverage, not soundness); fakesrc stands in for the master; > 32 MiB streams only in the thorough tier."),
     "C08": dict(
         level="model_checking", design="DESIGN.md 4/C08",
-        technique="TLA+ model of send / receive / ACK tick / drop / reconnect (Offsets.tla) model-checked by TLC (the pre-fix arithmetic kept as a deviation switch that TLC refutes); complete real-time Sync() runs between a scripted source and a model Redis, with source events, the tool's recv/ack hook events and the target's checkpoints in one sequence validated by TLC (OffsetsTrace.tla)",
+        technique="TLA+ model of send / receive / ACK tick / drop / reconnect (Offsets.tla) model-checked by TLC (the pre-fix arithmetic kept as a deviation switch that TLC refutes); complete real-time Sync() runs between a scripted source and a model Redis, with source events, the tool's recv/ack hook events and the target's checkpoints in one sequence validated by TLC (OffsetsTrace.tla); the counter abstraction OffsetsInd.tla has an inductive invariant discharged by Apalache (unbounded offsets)",
         text="TLC checks ack exactness / monotonicity / never-ahead / exact reconnect / no gap no duplicate for all interleavings at small bounds; the binding is end-to-end: the real DbSyncer.Sync() (checkpoint load, PSYNC, full sync, incremental sync with resume, ACK goroutine, reconnect loop) runs against fakesrc with bursts, idle periods spanning several ACK ticks, drops at and inside command boundaries, start offsets up to 2^40 and starts from a stored checkpoint; TLC judges every ACK, every re-PSYNC offset, the quiescent ACK, the checkpoint offsets and exactly-once application.",
         note="Real wall-clock tick periods (5-9 s per run; 8 runs quick, 48 thorough, parallel processes); refused re-PSYNC (30 s back-off) only in the thorough tier; offsets are compared relative to the start offset because TLC integers are 32 bit."),
     "C19": dict(
